@@ -38,3 +38,24 @@ package httpx
 //@   opaque GetFormValues, Unmarshal
 //@   ensures [form-error] ret(GetFormValues, 1) != nil ==> result == ret(GetFormValues, 1) && calls(Unmarshal) == 0
 //@   ensures [unmarshalled-by-form-tags] ret(GetFormValues, 1) == nil ==> calls(formUnmarshaler.Unmarshal) == 1 && arg(formUnmarshaler.Unmarshal, 1) == ret(GetFormValues, 0) && arg(formUnmarshaler.Unmarshal, 2) == v && result == ret(Unmarshal)
+
+// GetFormValues: URL and body form values by name (first value of each name, empty values left out); a body that is
+// not multipart is fine, any other parse failure is returned.
+//@ func GetFormValues
+//@   prop C05
+//@   requires r != nil
+//@   loop 1 iteration-ensures [first-value-under-its-name-unless-empty] calls(Get) == 1 && (len(ret(Get)) > 0 ==> has(params, arg(Get, 1)) && typeis(params[arg(Get, 1)], string) && unbox(params[arg(Get, 1)], string) == ret(Get)) && (len(ret(Get)) == 0 ==> has(params, arg(Get, 1)) == at_head(has(params, arg(Get, 1))))
+//@   ensures [form-parse-error] ret(ParseForm) != nil ==> result0 == nil && result1 == ret(ParseForm)
+//@   ensures [multipart-error-other-than-not-multipart] calls(ParseMultipartForm) == 1 && ret(ParseMultipartForm) != nil && ret(ParseMultipartForm) != http.ErrNotMultipart ==> result0 == nil && result1 == ret(ParseMultipartForm)
+//@   ensures [otherwise-a-map] calls(ParseMultipartForm) == 1 && (ret(ParseMultipartForm) == nil || ret(ParseMultipartForm) == http.ErrNotMultipart) ==> result1 == nil && result0 != nil
+// ParseHeaders: the request's own header map goes to the header parser, whose verdict is returned.
+//@ func ParseHeaders
+//@   prop C05
+//@   opaque ParseHeaders
+//@   requires r != nil
+//@   ensures [own-headers-into-the-destination] calls(encoding.ParseHeaders) == 1 && arg(encoding.ParseHeaders, 0) == r.Header && arg(encoding.ParseHeaders, 1) == v && result == ret(encoding.ParseHeaders)
+// ParseHeader: `k=v` attributes separated by ';' - the key is what precedes the first '=', the value all that follows.
+//@ func ParseHeader
+//@   prop C05
+//@   loop 1 iteration-ensures [attribute-split-at-the-first-equals] calls(strings.SplitN) <= 1 && (calls(strings.SplitN) == 1 ==> arg(strings.SplitN, 1) == "=" && arg(strings.SplitN, 2) == 2 && arg(strings.SplitN, 0) == ret(strings.TrimSpace)) && (calls(strings.SplitN) == 1 && len(ret(strings.SplitN)) == 2 ==> has(ret, ret(strings.SplitN)[0]) && ret[ret(strings.SplitN)[0]] == ret(strings.SplitN)[1])
+//@   ensures [split-at-semicolons] calls(strings.Split) == 1 && arg(strings.Split, 0) == headerValue && arg(strings.Split, 1) == ";" && result != nil
